@@ -202,6 +202,8 @@ class Skip:
             "axis": rng.choice([-1] * 6 + [None, 2]), "use_sum": rng.random() < 0.4,
             "no_beta": kind == "layer" and rng.random() < 0.1, "dt": rng.choice(["f32", "f32", "f16"]),
             "rt": {"B": Bd, "S": Sd, "B2": 1, "?": rng.choice([1, 2])},
+            # low-magnitude rows (mean square / variance ~1e-6) make the epsilon the fused node carries observable
+            "mag": rng.choice([1.0, 1.0, 1e-3]),
         }
         if rng.random() < 0.4:  # nominal shapes / attributes: only bias placement, orders, eps, dtype vary
             c.update(in_shape=list(base), skip_shape=list(base), gamma_shape=[D], beta_shape=[D], bias_shape=[D],
@@ -283,9 +285,10 @@ class Skip:
     def feeds(c, rng):
         rt = c["rt"]
         f = {}
+        mag = c.get("mag", 1.0) if c["dt"] == "f32" else 1.0
         for n, k in [("input", "in_shape"), ("skip", "skip_shape"), ("gamma", "gamma_shape"), ("beta", "beta_shape"),
                      ("bias", "bias_shape")]:
-            f[n] = rand_arr(rng, concrete(c[k], rt), c["dt"])
+            f[n] = rand_arr(rng, concrete(c[k], rt), c["dt"], mag if n in ("input", "skip", "bias") else 1.0)
         return f
 
     @staticmethod
